@@ -117,7 +117,8 @@ def jobs(pid, tier):
         allv = ['fresh_list', 'fresh_dict', 'fresh_rootless', 'declared_same', 'declared_other_levels',
                 'declared_other_nolevels', 'manager']
         J.append(Job('pickle_rt', dict(N=3 if q else 4, L=2, NT=3), need_outcomes=['loaded:' + v for v in
-                     ('fresh_list', 'fresh_dict', 'fresh_rootless', 'declared_same', 'declared_other_nolevels', 'manager')] + ['refused']))
+                     ('fresh_list', 'fresh_dict', 'fresh_rootless', 'declared_same', 'declared_other_nolevels', 'manager',
+                      'autoref_fresh_list', 'autoref_fresh_dict')] + ['refused']))
         J.append(Job('pickle_rt', dict(N=4, L=2, NT=3, variants=['declared_same', 'declared_other_nolevels', 'manager']),
                      need_outcomes=['loaded:declared_same']))
         J.append(Job('pickle_rt', dict(N=3, L=3, NT=2, variants=['declared_other_nolevels']),
